@@ -230,6 +230,13 @@ func registerIntrinsics(e *Engine) {
 		return out
 	}
 	in["zz.GlobalWrites"] = func(fr *frame, a []value) value { return len(fr.i.ps.writes) }
+	in["zz.GlobalResets"] = func(fr *frame, a []value) value {
+		out := []value{}
+		for _, w := range fr.i.ps.resets {
+			out = append(out, w)
+		}
+		return out
+	}
 
 	// ---------------- fmt ----------------
 	sprintf := func(fr *frame, a []value) value {
